@@ -22,7 +22,6 @@ Definition S8c := "C11-S8c-gridsearch-unfitted-X".
 Definition S16 := "C11-S16-loglikelihood-lengths".
 Definition S17 := "C11-S17-fit-quantile-fitted".
 Definition S18 := "C11-S18-poisson-y-ravel".
-Definition S24 := "C11-S24-poisson-y-arithmetic-before-validation".
 Definition L1 := "C11-L1-accuracy-length-checked-after-predict".   (* benign: ValueError is raised, but only after X was used *)
 
 Definition exceptions : list exc := [
@@ -34,20 +33,6 @@ Definition exceptions : list exc := [
   (* ExpectileGAM.fit_quantile on a fitted model: (predict(X) > y).mean() before any validation of y *)
   (* PoissonGAM._exposure_to_weights: y.ravel() on the raw argument (list / tuple -> AttributeError) *)
   (* LogisticGAM.accuracy / score: check_X_y(mu, y) runs after mu = predict_mu(X) *)
-  (* PoissonGAM._exposure_to_weights divides the raw y by the exposure before check_y: y given as numeric strings (or with
-     None inside) dies with TypeError whatever it contains (candidate finding S24) *)
-  mk_exc S24 None "PoissonGAM" "fit" AY KNonFinite None true (Some DStr);
-  mk_exc S24 None "PoissonGAM" "fit" AY KLen None true (Some DStr);
-  mk_exc S24 None "PoissonGAM" "fit" AY KDomain None true (Some DStr);
-  mk_exc S24 None "PoissonGAM" "fit" AY KNonFinite None false (Some DStr);
-  mk_exc S24 None "PoissonGAM" "fit" AY KLen None false (Some DStr);
-  mk_exc S24 None "PoissonGAM" "fit" AY KDomain None false (Some DStr);
-  mk_exc S24 None "PoissonGAM" "gridsearch" AY KNonFinite None true (Some DStr);
-  mk_exc S24 None "PoissonGAM" "gridsearch" AY KLen None true (Some DStr);
-  mk_exc S24 None "PoissonGAM" "gridsearch" AY KDomain None true (Some DStr);
-  mk_exc S24 None "PoissonGAM" "gridsearch" AY KNonFinite None false (Some DStr);
-  mk_exc S24 None "PoissonGAM" "gridsearch" AY KLen None false (Some DStr);
-  mk_exc S24 None "PoissonGAM" "gridsearch" AY KDomain None false (Some DStr);
   mk_exc L1 None "LogisticGAM" "accuracy" AX KLen None true None;
   mk_exc L1 None "LogisticGAM" "score" AX KLen None true None
 ].
